@@ -84,7 +84,7 @@ def run(ctx):
     ctx.cov["rule"] = ("testdrv: EVERY protocol-respecting call history of length 7 (quick) / 9 (thorough) over {OpenIn, CloseIn, OpenOut, CloseOut, Listen, Stop, Send}, "
                        "enumerated from TLC's state graph of MC_Ports, executed on a fresh real port pair, return value and deliveries compared after each call. "
                        "midicatdrv: seeded random protocol-respecting histories incl. 2-4 concurrent senders, start failure (helper binary missing) against a stand-in "
-                       "helper pair joined by a datagram socket, built with -race, every call under a 10 s watchdog; histories judged by TLC with Ports!PStep/ParOk. "
+                       "helper pair joined by a datagram socket, built with -race, every call under a 30 s watchdog; histories judged by TLC with Ports!PStep/ParOk. "
                        "distinct by call sequence; non-trivial = contains a Send while a listener is active")
     ctx.cov["checker_cmd"] = "tlc MC_Ports (lifecycle invariants) ; tlc MC_MidicatIn (PlusCal model of the in port: deadlock freedom, NoCallbackAfterStop, lock discipline) ; vh_ports walk ; vh_mcat ; tlc Trace_Ports"
     ctx.cov["trusted_base"] = ["TLC", "spec/Ports.tla (DESIGN C.7)", "Go race detector for data-race freedom (not a TLA+ notion; the model contributes the lock discipline invariant)",
